@@ -599,6 +599,20 @@ def rule_F8(ctx):
                         "F8", f.file, f.qualname, norm_src(n),
                         "graph mutator %s called outside the composer: the graph is no longer "
                         "immutable after composition" % n.func.attr, line=n.lineno))
+    # no write reaches the data of the composed graph from any API except its construction
+    a = ctx.absint
+    for entry, evs in a.entry_effects.items():
+        for e in evs:
+            if e.kind != "effect" or e.path[:3] != ("WC", "_graph", "nx"):
+                continue
+            inst = ("graph data", entry, dotted(e.path), e.op, e.func.qualname)
+            if entry.endswith(".graph") or entry.endswith(".deserialize") or entry.endswith(
+                    ".restore") or entry.endswith(".__init__"):
+                res.holds(inst, "composition")
+            else:
+                res.violated(inst, site_finding(
+                    "F8", e, "%s writes %s, data of the composed graph (via %s), after "
+                    "composition" % (entry.split(".", 1)[1], dotted(e.path), e.via)))
     return res
 
 
